@@ -14,7 +14,8 @@ Open Scope N_scope.
 Inductive pkind :=
 | KStop            (* stopError (env.Stop) *)
 | KOut             (* outError (failed write or show) *)
-| KFatal           (* *fatalError (env.Fatal, missing converter, a panic inside a callback) *)
+| KFatal           (* *fatalError (env.Fatal, missing converter) *)
+| KPanicError      (* *PanicError: the panics of a Scriggo function called back by native code *)
 | KScriggoRuntime  (* runtimeError, the type of the runtime errors raised by the VM itself *)
 | KGoRuntime       (* a runtime.Error of the Go runtime *)
 | KString          (* a string (the panics of package reflect) *)
@@ -29,7 +30,7 @@ Inductive conv :=
 | CPanic (out : option N)        (* a *PanicError; Some e when its message is outError{e} *)
 | CFatal (wrapped : bool)        (* a *fatalError: the payload itself (false) or a new one around the payload (true) *)
 | CError (e : N)                 (* OpGo: the error is returned as it is *)
-| CFault.                        (* nil pointer dereference inside convertPanic (vm.fn == nil) *)
+| CFault.                        (* nil pointer dereference inside convertPanic (vm.fn == nil): before fix 6756254 *)
 
 Fixpoint prefixb (p s : bytes) : bool :=
   match p, s with
@@ -52,14 +53,20 @@ Definition rule_matches (op : Z) (p : payload) : bool :=
       end
     end) gen_convertPanic_rules.
 
-(* callee_native: for OpCallIndirect, the called value is a native function (f.fn == nil) *)
+(* callee_native: for OpCallIndirect, the called value is a native function (f.fn == nil).
+   fn_nil (vm.fn == nil) or the Return as current instruction: the panic comes
+   from a deferred native function called by nextCall and is converted as the
+   panic of a native function called by an instruction; vm.newPanic gives it no
+   position.  The result CFault (a nil pointer dereference inside convertPanic)
+   is no longer produced. *)
 Definition convert (fn_nil : bool) (op : Z) (callee_native : bool) (p : payload) : conv :=
   match p_kind p with
   | KStop => CStop (p_id p)
-  | KOut => if fn_nil then CFault else CPanic (Some (p_id p))   (* vm.newPanic reads vm.fn.InstructionInfo *)
+  | KOut => CPanic (Some (p_id p))
+  | KPanicError => CPanic None          (* returned as it is: runFunc links vm.panic after its last record *)
   | k =>
-    if fn_nil then CFault                                       (* vm.fn.Body[vm.pc-1] *)
-    else if rule_matches op p then CPanic None
+    let op := if fn_nil || Z.eqb op gen_OpReturn then gen_OpCallNative else op in
+    if rule_matches op p then CPanic None
     else
       let bottom := match k with KScriggoRuntime => CPanic None | _ => CFatal true end in
       if (Z.eqb op gen_OpCallNative) || (Z.eqb op gen_OpCallIndirect && callee_native) then
@@ -151,7 +158,8 @@ Definition vm_run (has_ctx done_at_end : bool) (segs : list seg) : run_res :=
   end.
 
 (* no raw panic is raised by a deferred native call while vm.fn is nil,
-   except env.Stop: the case convertPanic does not survive *)
+   except env.Stop: the case convertPanic did not survive before fix 6756254
+   (kept for the record: the theorems no longer need it) *)
 Definition seg_ok (s : seg) : bool :=
   match s with
   | SgRaise true _ _ p _ => match p_kind p with KStop => true | _ => false end
